@@ -1,8 +1,8 @@
-\* C26 quick (root module: ApiAccessTable, which EXTENDS ApiAccess and exports the decision table)
+\* C26 quick (root module: ApiAccessTable, which EXTENDS ApiAccess and exports the decision table). Every value of every request dimension that selects a distinct branch of access.go (all Creds, all Conns) is in the quick tier; only the Users variants "removed"/"forged" (same branch as "garbage") are left to thorough.
 CONSTANTS
-  Creds = {"valid", "missing", "garbage", "trailing", "leading", "nouid"}
+  Creds = {"valid", "missing", "garbage", "trailing", "leading", "nopid", "nouid"}
   Users = {"none", "valid", "garbage"}
-  Conns = {"none", "activeListed", "bothListed", "undesired", "otherSnap", "slotSide"}
+  Conns = {"none", "activeListed", "bothListed", "activeOther", "undesired", "hotplugGone", "otherSnap", "slotSide", "notSnap", "badRef"}
 SPECIFICATION Spec
 INVARIANTS
   TypeOK
